@@ -424,22 +424,29 @@ def m3(ctx, rep):
         is_map = isinstance(src, dict) and src.get('k') == 'atom' and not src.get('path') and ('BTreeMap' in str(src.get('ty') or src.get('root_ty') or '') or src.get('root') == 'crate_parsed_data')
         return is_map, chain
     loops = [l for l in f['loops'] if l.get('kind') == 'for' and map_source(l['over'])[0]]
+    DRIVERS = ('for_each', 'try_for_each')
+    # the same loop written as `map.into_values().try_for_each(|data| { .. })`: the closure body runs once per element
+    loops += [{'kind': 'for', 'over': c['recv'], 'line': c.get('line')} for c in f['calls'] if c.get('f') in DRIVERS and c.get('recv') is not None and map_source(c['recv'])[0]
+              and c.get('args') and isinstance(vt.strip(c['args'][0]), dict) and vt.strip(c['args'][0]).get('k') == 'closure']
+
+    def loop_frame(x):
+        return x.get('k') == 'for' or (x.get('k') == 'closure' and x.get('via') in DRIVERS)
     ok = len(loops) == 1 and all(x in ('into_values', 'values', 'values_mut', 'into_iter', 'iter', 'iter_mut') for x in map_source(loops[0]['over'])[1])
     rep.check(ok, 'M3', 'write-loop:whole-map', 'for (_, parsed_data) in crate_parsed_data', f"folder mode iterates `{vt.show(loops[0]['over'])[:60] if loops else '?'}`: every crate's data must be written, unfiltered", site)
     lkey = vt.ckey(loops[0]['over']) if loops else None
 
     def in_loop(c):
-        fr = [x for x in c['guard'] if x.get('k') in ('for', 'if')]
-        return len(fr) == 1 and fr[0].get('k') == 'for' and vt.ckey(fr[0].get('over')) == lkey
-    gen = [c for c in f['calls'] if c.get('f') == 'generate_types' and any(x.get('k') == 'for' for x in c['guard'])]
-    wr = [c for c in f['calls'] if c.get('f') == wname and any(x.get('k') == 'for' for x in c['guard'])]
+        fr = [x for x in c['guard'] if x.get('k') == 'if' or loop_frame(x)]
+        return len(fr) == 1 and loop_frame(fr[0]) and vt.ckey(fr[0].get('over')) == lkey
+    gen = [c for c in f['calls'] if c.get('f') == 'generate_types' and any(loop_frame(x) for x in c['guard'])]
+    wr = [c for c in f['calls'] if c.get('f') == wname and any(loop_frame(x) for x in c['guard'])]
     rep.check(len(gen) == 1 and in_loop(gen[0]) and len(wr) == 1 and in_loop(wr[0]), 'M3', 'write-loop:once-per-crate', 'one generate_types + one check_write_file per crate, unconditional', 'folder mode does not generate and write exactly once per crate, unconditionally', site)
     if wr:
         p = vt.show(wr[0]['args'][0])
         elem_fn = any(x.get('k') == 'atom' or x.get('k') == 'field' for x in vt.walk(wr[0]['args'][0])) and re.search(r'each\([^)]*\)[^ ]*\.file_name', p.replace(' ', '')) is not None
         rep.check(elem_fn and 'join' in p, 'M3', 'write-loop:path', 'path = output_folder ⊕ that crate\'s file_name', f'files are written to `{p[:80]}`', site)
     pg = [c for c in f['calls'] if c.get('f') == 'post_generation']
-    rep.check(len(pg) == 1 and not [x for x in pg[0]['guard'] if x.get('k') == 'for'], 'M3', 'post-generation-after-loop', 'post_generation once, after all files', 'post_generation is not called exactly once after the loop', site)
+    rep.check(len(pg) == 1 and not [x for x in pg[0]['guard'] if loop_frame(x)], 'M3', 'post-generation-after-loop', 'post_generation once, after all files', 'post_generation is not called exactly once after the loop', site)
     # collector keyed by the file's own crate name (closure inside parallel_parse)
     pp = ctx.fnx('parallel_parse', file='cli/src/parse.rs')
     ent = [c for c in pp['calls'] if c.get('f') == 'entry']
